@@ -20,7 +20,7 @@ tvars == <<l, w, h, nviol, ndrift, cnt, cfg>>
 Counters == {"uname_ok", "uname_rej", "replayed", "sched_ok", "sched_rej", "priced", "gas_max", "faults", "faults_fired", "faults_soft", "out_msgs", "parsed", "shapebad", "replicas", "probe",
              "steps", "ok", "err", "unk", "pred", "tok_ok", "deliver_ok", "deliver_err", "refund_ok", "frozen_rej", "paused_rej", "payable_rej",
              "role_rej", "role_ok", "supply_ok", "overdraft_rej", "create_ok", "handover_ok", "handover_deliver", "kv_ok", "kv_prot_rej",
-             "meta_fn_ok", "alias_rej", "gas_rej", "flag_ok", "acct_ok", "acct_rej", "nonpay_exempt"}
+             "meta_fn_ok", "alias_rej", "gas_rej", "underfunded", "unflagged_ok", "flag_ok", "acct_ok", "acct_rej", "nonpay_exempt"}
 Cnt0 == [k \in Counters |-> 0]
 
 \* counterfactual worlds, used only to classify why a step was rejected (vacuity counters)
@@ -56,7 +56,7 @@ StepPred(name, wp, ev, w2, hp, r) ==
     [] name = "P04_Immobile" -> P04_Immobile(wp, ev, w2, hp, r)
     [] name = "P04_NoCreditWhilePaused" -> P04_NoCreditWhilePaused(wp, ev, w2, hp, r)
     [] name = "P04_FlagOnly" -> P04_FlagOnly(wp, ev, w2, hp, r)
-    [] name = "P04_Restores" -> P04_Restores(wp, ev, w2, hp, r)
+    [] name = "P04_Restores" -> P04_Restores(wp, ev, w2, hp, r, Ref(Repause(wp, ev.sh, WasFlagged(ev, hp)), ev))
     [] name = "P05_Protected" -> P05_Protected(wp, ev, w2, hp, r)
     [] name = "P05_KVExact" -> P05_KVExact(wp, ev, w2, hp, r, RefPerm(wp, ev))
     [] name = "P05_Frame" -> P05_Frame(wp, ev, w2, hp, r)
@@ -101,12 +101,12 @@ StateNames == {"Conservation", "NoNegative", "WellFormed", "SysClean", "CounterW
 
 
 \* vacuity counters: which situations the run exercised
-Triggers(wp, ev, w2, r) ==
+Triggers(wp, ev, w2, r, hp) ==
   IF ev.a = "sched" THEN (IF ev.schok THEN {"sched_ok"} ELSE {"sched_rej"})
   ELSE IF ev.a = "fault" THEN {"faults"} \cup (IF ev.x.fired THEN (IF ev.res = "err" THEN {"faults_fired"} ELSE {"faults_soft"}) ELSE {})
   ELSE IF ~Call(ev) THEN {} ELSE
   (IF ev.a = "exec" /\ IsOk(ev) /\ ev.snd /\ Pred(r) /\ r.ok THEN {"priced"} ELSE {}) \cup (IF "mcres" \in DOMAIN ev.x THEN {"replayed"} ELSE {})
-  \cup (IF ev.gascls # "" THEN {"gas_max"} ELSE {}) \cup (IF ev.out # <<>> THEN {"out_msgs"} ELSE {}) \cup (IF ev.par.ok THEN {"parsed"} ELSE {})
+  \cup (IF ev.gascls # "" THEN {"gas_max"} ELSE {}) \cup (IF Call(ev) /\ Underfunded(ev) THEN {"underfunded"} ELSE {}) \cup (IF ev.out # <<>> THEN {"out_msgs"} ELSE {}) \cup (IF ev.par.ok THEN {"parsed"} ELSE {})
   \cup (IF ShapeBad(ev) THEN {"shapebad"} ELSE {}) \cup (IF "d1" \in DOMAIN ev.x THEN {"replicas"} ELSE {}) \cup (IF "used" \in DOMAIN ev.x THEN {"probe"} ELSE {}) \cup
   {"steps"} \cup (IF IsOk(ev) THEN {"ok"} ELSE {"err"}) \cup (IF r.unk THEN {"unk"} ELSE {"pred"})
   \cup (IF ev.fn \in TokenFns /\ IsOk(ev) /\ ev.a = "exec" THEN {"tok_ok"} ELSE {})
@@ -119,6 +119,8 @@ Triggers(wp, ev, w2, r) ==
           \cup (IF ev.fn \in RoleGated /\ NArgs(ev) >= 1 /\ ev.caller \in Accts(wp) /\ RefOk(WithAllRoles(wp, ev.caller, Arg(ev,1).h), ev) THEN {"role_rej"} ELSE {})
         ELSE {})
   \cup (IF ev.fn \in RoleGated /\ IsOk(ev) THEN {"role_ok"} ELSE {})
+  \cup (IF IsOk(ev) /\ ~ev.rae /\ ev.caller # ESDTSC /\ ev.fn \in (SupplyFns \cup TokenFns) /\ WasFlagged(ev, hp) # {} /\ (\A t \in WasFlagged(ev, hp) : ~FlagNow(wp, ev.sh, t))
+        THEN {"unflagged_ok"} ELSE {})
   \cup (IF ev.fn \in SupplyFns /\ IsOk(ev) THEN {"supply_ok"} ELSE {})
   \cup (IF ~IsOk(ev) /\ ev.fn \in {"ESDTTransfer", "ESDTLocalBurn", "ESDTBurn"} /\ NArgs(ev) >= 2 /\ ev.snd /\ ev.caller \in Accts(wp)
            /\ Arg(ev,2).q > ValAt(wp, ev.caller, Arg(ev,1).h) THEN {"overdraft_rej"} ELSE {})
@@ -157,7 +159,7 @@ Step ==
             h2 == HistStep(h, w, ev)
             bad == {k \in StepNames \cap Checked : ~StepPred(k, w, ev, w2, h, r)} \cup {k \in StateNames \cap Checked : ~StatePred(k, w2, h2)}
             conf == Conforms(w, ev, w2, h, r)
-            trig == Triggers(w, ev, w2, r) IN
+            trig == Triggers(w, ev, w2, r, h) IN
         /\ (bad # {} => PrintT(<<"VIOL", l, bad>>))
         /\ (~conf => PrintT(<<"DRIFT", l, ev.fn, ev.res, r.ok, DiffParts(w, ev, w2, r)>>))
         /\ w' = w2 /\ cfg' = cfg
